@@ -212,8 +212,13 @@ def model(draw, logic, *, max_worlds=3, max_consts=3, natoms=3, preds=((0, 0, 1)
     worlds = list(range(nw))
     rel = _relation(draw, frame, worlds) if frame else set()
     nc = draw(st.integers(1, max_consts))
-    if draw(st.booleans()):
+    mode = draw(st.integers(0, 3))
+    if mode <= 1:
         consts = [A.const(i % 4, i // 4) for i in range(nc)]
+    elif mode == 2:
+        # scattered names with two-digit subscripts (where string order and the lexical order disagree: a10 < a9 as text)
+        pool = [A.const(i, sub) for sub in (0, 1, 2, 9, 10, 11) for i in range(4)]
+        consts = list(draw(st.permutations(pool)))[:nc]
     else:
         # arbitrary names: all four letters, subscripts, not in alphabetical order of appearance
         # a window of the constants in their true order (a b c d a1 b1 ...), shuffled: names that wrap the
